@@ -75,6 +75,16 @@ class Check:
         if len(self.samples) < 12:
             self.samples.append(obj)
 
+    def require(self, rule: str, func: str, what: str, found: int, floor: int, message: str, where: str = "") -> bool:
+        """Like ``floor`` but for a *mechanism* whose absence itself breaks the
+        property: fewer sites than confirmed is reported as a finding that
+        names the missing mechanism, not as an analysis error."""
+        ok = found >= floor
+        if not ok:
+            self.finding(rule, func, f"missing:{what}", f"{message} (found {found}, the tree this rule was confirmed on had {floor})", where)
+        self.ob(rule, f"{func}: {what} present", ok, f"{found} sites", nontrivial=False)
+        return ok
+
     def floor(self, rule: str, what: str, found: int, floor: int) -> None:
         """A rule that matches fewer sites than were confirmed by hand passes
         vacuously forever: fail the run as analysis-broken instead."""
